@@ -355,15 +355,50 @@ def mustemit(run, p, rid):
     run.ob(rid, 'write_script:per-file', counts == {1}, 'tests written per reference file on the paths of the loop body: %s' % sorted(counts), fn=ws, node=loop)
     gm = GuardMap(ws.node)
     for stream, flag, var in (('stdout', 'self.check_stdout', 'self.output'), ('stderr', 'self.check_stderr', 'self.error')):
-        calls = [x for x in p.own_nodes(ws) if isinstance(x, ast.Call) and getattr(x.func, 'id', '') == 'test_def'
-                 and x.args and isinstance(x.args[0], ast.Constant) and x.args[0].value == stream]
-        ok = len(calls) == 1
+        sites = _stream_test_sites(p, ws, stream)
+        ok = len(sites) == 1
         if ok:
-            ch = [g for g in gm.chain(calls[0]) or () if g.kind == 'if']
-            ok = len(ch) == 1 and ch[0].pol and norm(ch[0].test) == flag and norm(calls[0].args[1]) == repr(var)
+            call, actual = sites[0]
+            ch = [g for g in gm.chain(call) or () if g.kind == 'if']
+            ok = len(ch) == 1 and ch[0].pol and norm(ch[0].test) == flag and actual == var
         run.ob(rid, 'write_script:%s' % stream, ok, 'the %s test is written once, under exactly [%s], on %s' % (stream, flag, var), fn=ws,
-               node=calls[0] if calls else None)
+               node=sites[0][0] if sites else None)
     run.floor(rid, 3, 3)
+
+
+def _stream_test_sites(p, ws, stream):
+    """[(call in write_script, the expression text the test checks)] for the test of one captured stream: test_def(stream, actual, ...)
+    called directly, or through a helper method that hands its own parameters on to an unconditional test_def."""
+    out = []
+    for x in p.own_nodes(ws):
+        if not isinstance(x, ast.Call):
+            continue
+        if getattr(x.func, 'id', '') == 'test_def':
+            if x.args and isinstance(x.args[0], ast.Constant) and x.args[0].value == stream and len(x.args) > 1 \
+                    and isinstance(x.args[1], ast.Constant):
+                out.append((x, x.args[1].value))
+            continue
+        for h, _ctx in [t for _c, ts, _k in p.calls(ws) if _c is x for t in ts]:
+            if h.cls is None or h is ws:
+                continue
+            inner = [c for c in p.own_nodes(h) if isinstance(c, ast.Call) and getattr(c.func, 'id', '') == 'test_def' and len(c.args) > 1]
+            if len(inner) != 1 or any(g.kind in ('if', 'loop', 'except') for g in GuardMap(h.node).chain(inner[0]) or ()):
+                continue
+            pos = list(h.posparams)[1:]
+            bound = {}
+            for i, a in enumerate(x.args):
+                if i < len(pos):
+                    bound[pos[i]] = a
+            for k in x.keywords:
+                if k.arg:
+                    bound[k.arg] = k.value
+            vals = []
+            for a in inner[0].args[:2]:
+                a = bound.get(a.id) if isinstance(a, ast.Name) else a
+                vals.append(a.value if isinstance(a, ast.Constant) else None)
+            if vals[0] == stream and vals[1] is not None:
+                out.append((x, vals[1]))
+    return out
 
 
 # ---------------------------------------------------------------------------
